@@ -85,6 +85,14 @@ def run(an: Analysis, rep):
     rep.run(r03f, an, rep)
     rep.run(r03y, an, rep)
     rep.run(r03t, an, rep)
+    from . import c06 as _c06n, c01 as _c01o
+    from .common import SharedRules as _SR3n
+    rep.run(_c06n.r06n, an, _SR3n(rep, "R03.N", "normalize folded over witness data full of artefacts (shared with C06's R06.N): 'decoding that code object again gives data equal to the input up to "
+                                                "normalization' compares through normalize, which has to reach every nested code object"))
+    sho3 = _SR3n(rep, "R03.O", "the shift by the first line number moves every line by exactly that amount, in both directions (shared with C01's R01.5): 'each instruction carries the given line' - also a line "
+                               "before first_line_number, which the table can express")
+    rep.run(_c01o.r015_every_line, an, sho3)
+    rep.run(_c01o.r015_order, an, sho3)
     rep.run(r03e, an, rep)
     from . import c05 as _c05k
     from .common import SharedRules as _SR3
@@ -1251,11 +1259,15 @@ def r03e(an, rep, rule="R03.E"):
          [[("LOAD_CONST", K("doc")), ("POP_TOP", None), ("LOAD_CONST", K(2)), ("RETURN_VALUE", None)]], (), "doc"),
         ("a function without docstring whose first constant is not a string",
          [[("LOAD_CONST", K(5)), ("POP_TOP", None), ("LOAD_CONST", K("s")), ("RETURN_VALUE", None)]], (), "nodoc"),
+        # entries no instruction uses come after the ones in use (that is where the decoder found them when it left them without a position)
+        ("unreferenced names and constants behind the ones in use",
+         [[("LOAD_NAME", N("first")), ("LOAD_ATTR", N("attr")), ("LOAD_CONST", K(1)), ("RETURN_VALUE", None)]], (), None, [N("second"), N("third"), K("unused")]),
     ]
     for V in VERSIONS:
         bad = []
-        for wname, wb, freevars, *kind in W:
-            kind = kind[0] if kind else None
+        for wname, wb, freevars, *rest in W:
+            kind = rest[0] if rest else None
+            extra_specs = rest[1] if len(rest) > 1 else []
             ev, R = package_evaluator(an, g.module, V)
             mk = ev.lib
 
@@ -1278,7 +1290,7 @@ def r03e(an, rep, rule="R03.E"):
             try:
                 blocks = tuple(tuple(mk["Instruction"](name=ins[0], arg=arg_obj(ins[1]), _n_args_override=(ins[2] if len(ins) > 2 else None), line_number=1) for ins in b) for b in wb)
                 btype = None if kind is None else mk["Function"](mk["Args"](), "doc" if kind == "doc" else None, None)
-                res = ev.call_method(g.node, blocks, (), tuple(freevars), btype)
+                res = ev.call_method(g.node, blocks, tuple(arg_obj(x) for x in extra_specs), tuple(freevars), btype)
             except BlockOutcome as o:
                 bad.append(f"{wname}: the layout stops at `{norm_src(o.node)[:60]}`")
                 continue
@@ -1327,6 +1339,17 @@ def r03e(an, rep, rule="R03.E"):
                     why = f"{ins[0]} {spec[1]} has operand {operand}"
                 if why:
                     break
+            if not why and extra_specs:
+                # first-use order of the instructions, then the unreferenced entries in the order given
+                en, ek = [], []
+                for ins in flat + [(None, x) for x in extra_specs]:
+                    sp = ins[1]
+                    if sp and sp[0] == "N" and sp[1] not in en:
+                        en.append(sp[1])
+                    if sp and sp[0] == "K" and sp[1] not in ek:
+                        ek.append(sp[1])
+                if list(names) != en or list(consts) != ek:
+                    why = f"co_names / co_consts are {names} / {consts}; entries without a position take the next free one in order of first use, unreferenced ones last: {tuple(en)} / {tuple(ek)}"
             if not why and kind == "nodoc" and consts and isinstance(consts[0], str):
                 why = f"co_consts is {consts}: CPython reads a str at index 0 as the docstring of a function, the data says it has none"
             if not why and kind == "doc" and (not consts or consts[0] != "doc"):
